@@ -644,6 +644,14 @@ impl G {
                 self.client_send(ch);
             }
         }
+        // the client's own close may be in flight (sent, not yet answered)
+        if self.rng.chance(1, 4) {
+            self.client_close();
+            self.w.event_chan(0);
+            if self.rng.boolean() {
+                self.flush_all();
+            }
+        }
         match self.rng.below(7) {
             0 => self.feed_stream(prefix, Term::Eof),
             1 => self.feed_stream(prefix, Term::IoErr),
@@ -763,6 +771,13 @@ impl G {
             }
             if self.rng.chance(2, 3) {
                 self.flush_all();
+                // ... and something submitted once the Close is on the wire
+                if let Some(ch) = self.some_open() {
+                    self.client_send(ch);
+                    self.w.event_chan(ch);
+                    self.w.peek_out();
+                    self.flush_all();
+                }
             }
             self.w.peek_out();
             self.w.is_done();
